@@ -1,11 +1,263 @@
-/- C14 — executable model (stub; filled in by the property's owner). -/
-import Mahotas.Model.Border
-import Mahotas.Model.DType
+/-
+C14 — local / regional extrema, hole closing, hit-or-miss
+(`_morph.cpp`: `locmin_max`, `remove_fake_regmin_max`, `close_holes`, `hitmiss`;
+ `morph.py`: `_remove_centre`, `locmax`, `locmin`, `regmax`, `regmin`, `close_holes`, `hitmiss`).
+
+Values are integers: the kernels only *compare* pixel values, so float images enter through an
+order isomorphism onto integers (done by the harness, NaN excluded).
+-/
+import Mahotas.Model.C01
 namespace Mahotas.C14
 open Mahotas
 
+/-! ### neighbourhoods -/
+
+def isZeroPos (k : List Int) : Bool := k.all (· == 0)
+
+/-- offsets `k - c` of the non-zero entries of `Bc`, the centre removed
+    (`_remove_centre` in Python followed by the compressed footprint / `neighbours(Bc)`), scan order. -/
+def neighbours (bshape : List Nat) (bc : Array Int) : List (List Int) :=
+  let c := centreOf bshape
+  (List.range (shapeSize bshape)).filterMap fun i =>
+    let k := subPos (unravelI bshape i) c
+    if bc.getD i 0 == 0 || isZeroPos k then none else some k
+
+/-! ### decidable checks of the hypotheses of the theorems (soundness: `Proofs/StarCheck.lean`) -/
+
+/-- the integers between 0 and `a` (inclusive) -/
+def intRange (a : Int) : List Int :=
+  if 0 ≤ a then (List.range (a.toNat + 1)).map (fun (n : Nat) => Int.ofNat n)
+  else (List.range ((-a).toNat + 1)).map (fun (n : Nat) => -Int.ofNat n)
+
+/-- every offset between 0 and `k`, coordinate-wise -/
+def betweens : List Int → List (List Int)
+  | [] => [[]]
+  | a :: as => (intRange a).flatMap fun a' => (betweens as).map fun r => a' :: r
+
+/-- the neighbourhood (centre removed) is coordinate-wise star-shaped -/
+def starShapedB (nb : List (List Int)) : Bool :=
+  nb.all fun k => (betweens k).all fun k' => isZeroPos k' || nb.contains k'
+
+/-- the neighbourhood is symmetric and its offsets have the given rank -/
+def symNbB (rank : Nat) (nb : List (List Int)) : Bool :=
+  nb.all fun k => nb.contains (negPos k) && k.length == rank
+
+/-- element offsets (with heights) closed under "between 0 and a member" and under negation -/
+def symStarB (sup : List (List Int × Int)) : Bool :=
+  sup.all fun kh =>
+    ((betweens kh.1).all fun k' => (sup.map (·.1)).contains k') && (sup.map (·.1)).contains (negPos kh.1)
+
+/-! ### `locmin_max` -/
+
+/-- `a` beats `b`: strictly lower (minima) / strictly higher (maxima) -/
+def beats (isMin : Bool) (a b : Int) : Bool := if isMin then decide (a < b) else decide (a > b)
+
+/-- model of `locmin_max<T>`: the pixel is marked unless some neighbour, read through
+    `ExtendNearest`, beats it. -/
+def locAt (isMin : Bool) (A : Img Int) (nb : List (List Int)) (p : List Int) : Bool :=
+  nb.all fun k => !beats isMin (C01.readNearest A (addPos p k)) (A.getD p 0)
+
+/-- specification: no neighbour *inside the image* exceeds (undercuts) the pixel. -/
+def locSpecAt (isMin : Bool) (A : Img Int) (nb : List (List Int)) (p : List Int) : Bool :=
+  nb.all fun k => !(inside A.shape (addPos p k) && beats isMin (A.getD (addPos p k) 0) (A.getD p 0))
+
+def locModel (isMin : Bool) (A : Img Int) (nb : List (List Int)) : Array Bool :=
+  ((allPos A.shape).map (locAt isMin A nb)).toArray
+
+/-! ### stack flood fill (shared by `remove_fake_regmin_max` and `close_holes`) -/
+
+/-- one pop of the stack: every neighbour of `p` that is inside the image and still available is
+    taken (its flag cleared) and pushed. -/
+def floodVisit (shape : List Nat) (nb : List (List Int)) (p : List Int)
+    (st : Array Bool × List (List Int)) : Array Bool × List (List Int) :=
+  nb.foldl (fun acc k =>
+      let q := addPos p k
+      if inside shape q && acc.1.getD (ravelI shape q) false then
+        (acc.1.setIfInBounds (ravelI shape q) false, q :: acc.2)
+      else acc) st
+
+/-- `while (!stack.empty())` with fuel; `avail` flags the pixels that may still be taken. -/
+def flood (shape : List Nat) (nb : List (List Int)) : Nat → Array Bool → List (List Int) → Array Bool
+  | 0, avail, _ => avail
+  | _ + 1, avail, [] => avail
+  | fuel + 1, avail, p :: stack =>
+    let st := floodVisit shape nb p (avail, stack)
+    flood shape nb fuel st.1 st.2
+
+/-! ### `remove_fake_regmin_max` -/
+
+def weakBeats (isMin : Bool) (a b : Int) : Bool := if isMin then decide (a ≤ b) else decide (a ≥ b)
+
+/-- a marked pixel with an *unmarked* neighbour inside the image whose value is at least as good -/
+def hasFakeWitness (isMin : Bool) (A : Img Int) (nb : List (List Int)) (m : Array Bool) (p : List Int) : Bool :=
+  nb.any fun k =>
+    let q := addPos p k
+    inside A.shape q && !m.getD (ravelI A.shape q) false && weakBeats isMin (A.getD q 0) (A.getD p 0)
+
+/-- scan in C order; a marked pixel with a fake witness is unmarked together with everything
+    reachable from it through marked pixels. -/
+def removeFake (isMin : Bool) (A : Img Int) (nb : List (List Int)) (marks : Array Bool) : Array Bool :=
+  (allPos A.shape).foldl (fun m p =>
+      let i := ravelI A.shape p
+      if !m.getD i false then m
+      else if hasFakeWitness isMin A nb m p then
+        flood A.shape nb (A.size + 1) (m.setIfInBounds i false) [p]
+      else m) marks
+
+def regModel (isMin : Bool) (A : Img Int) (nb : List (List Int)) : Array Bool :=
+  removeFake isMin A nb (locModel isMin A nb)
+
+/-- executable specification of "the plateau of `p` has no strictly better neighbour":
+    `bad₀ q` = some neighbour inside the image beats `q`; a pixel is bad when an equal-valued
+    neighbour (in either direction) is bad; iterate to the fixed point (`size` rounds suffice). -/
+def badStep (A : Img Int) (nb : List (List Int)) (bad : Array Bool) : Array Bool :=
+  ((allPos A.shape).map fun q =>
+    bad.getD (ravelI A.shape q) false ||
+    nb.any fun k =>
+      let r := addPos q k
+      let r' := subPos q k
+      (inside A.shape r && A.getD r 0 == A.getD q 0 && bad.getD (ravelI A.shape r) false) ||
+      (inside A.shape r' && A.getD r' 0 == A.getD q 0 && bad.getD (ravelI A.shape r') false)).toArray
+
+def iter {α : Type} (f : α → α) : Nat → α → α
+  | 0, x => x
+  | n + 1, x => iter f n (f x)
+
+def regSpec (isMin : Bool) (A : Img Int) (nb : List (List Int)) : Array Bool :=
+  let bad0 := ((allPos A.shape).map fun q => !locSpecAt isMin A nb q).toArray
+  (iter (badStep A nb) A.size bad0).map (!·)
+
+/-! ### `close_holes` -/
+
+/-- the border seeding loop: for every axis `d`, every position whose `d`-th coordinate is `0`
+    or `dim d - 1` (the Python wrapper admits 2-D images only). -/
+def onBorder : List Nat → List Int → Bool
+  | d :: ds, p :: ps => p == 0 || p == (d : Int) - 1 || onBorder ds ps
+  | _, _ => false
+
+/-- availability before seeding: the background pixels -/
+def chAvail0 (ref : Img Int) : Array Bool := (ref.data.toList.map (· == 0)).toArray
+
+/-- the seeds: background pixels on the border, in scan order -/
+def chSeeds (ref : Img Int) : List (List Int) :=
+  (allPos ref.shape).filter fun p => onBorder ref.shape p && ref.getD p 1 == 0
+
+/-- seeding takes the seeds -/
+def chAvail1 (ref : Img Int) : Array Bool :=
+  (chSeeds ref).foldl (fun a p => a.setIfInBounds (ravelI ref.shape p) false) (chAvail0 ref)
+
+/-- model of `close_holes`: background border pixels are seeded (taken), the flood takes every
+    background pixel reachable from them, the result is the complement of what was taken.
+    (Fuel: one pop per taken pixel, at most `size` takes after the seeds.) -/
+def closeHoles (ref : Img Int) (nb : List (List Int)) : Array Bool :=
+  let avail := flood ref.shape nb (ref.size + (chSeeds ref).length + 1) (chAvail1 ref) (chSeeds ref).reverse
+  -- taken = background ∧ ¬ still available ; result = ¬ taken
+  ((List.range ref.size).map fun i => ref.data.getD i 0 != 0 || avail.getD i false).toArray
+
+/-- executable specification: `reach₀` = background border pixels; a background pixel becomes
+    reached when a neighbour (either direction) is reached; `size` rounds; result = complement. -/
+def reachStep (ref : Img Int) (nb : List (List Int)) (reach : Array Bool) : Array Bool :=
+  ((allPos ref.shape).map fun q =>
+    reach.getD (ravelI ref.shape q) false ||
+    (ref.getD q 1 == 0 && nb.any fun k =>
+      let r := addPos q k
+      let r' := subPos q k
+      (inside ref.shape r && reach.getD (ravelI ref.shape r) false) ||
+      (inside ref.shape r' && reach.getD (ravelI ref.shape r') false))).toArray
+
+def closeHolesSpec (ref : Img Int) (nb : List (List Int)) : Array Bool :=
+  let r0 := ((allPos ref.shape).map fun p => onBorder ref.shape p && ref.getD p 1 == 0).toArray
+  (iter (reachStep ref nb) ref.size r0).map (!·)
+
+/-! ### `hitmiss` -/
+
+/-- the template entries that are tested: offset `k - c` and the required value, entries equal
+    to 2 dropped; scan order (the C++ shuffles this list with a fixed-seed `mt19937`, which only
+    changes the order in which the conjunction below is evaluated). -/
+def hmEntries (bshape : List Nat) (bc : Array Int) : List (List Int × Int) :=
+  let c := centreOf bshape
+  (List.range (shapeSize bshape)).filterMap fun i =>
+    let v := bc.getD i 0
+    if v == 2 then none else some (subPos (unravelI bshape i) c, v)
+
+/-- positions at which the kernel evaluates the template (everywhere else it writes 0):
+    on every axis but the last the margin rule `min(p, n-1-p) ≥ b/2`; on the last axis the
+    `slack` counter: the margin rule must hold at `x = b/2`, and then `n - b + 1` consecutive
+    positions are evaluated. For odd `b` this is the margin rule again. -/
+def hmEvaluated : List Nat → List Nat → List Int → Bool
+  | n :: ns, b :: bs, x :: xs =>
+    let c : Int := (b / 2 : Nat)
+    if ns.isEmpty then
+      bs.isEmpty && xs.isEmpty &&
+      decide (min c ((n : Int) - c - 1) ≥ c) && decide (c ≤ x) && decide (x < c + ((n : Int) - (b : Int) + 1))
+    else
+      decide (min x ((n : Int) - x - 1) ≥ c) && hmEvaluated ns bs xs
+  | _, _, _ => false
+
+/-- model of `hitmiss<T>` at one pixel, the entries tested in the given order. -/
+def hitmissAt (A : Img Int) (bshape : List Nat) (entries : List (List Int × Int)) (p : List Int) : Int :=
+  if hmEvaluated A.shape bshape p then
+    (if entries.all fun e => A.getD (addPos p e.1) 0 == e.2 then 1 else 0)
+  else 0
+
+/-- specification: the whole template lies inside the image when centred at `p`, and every
+    entry different from 2 equals the pixel under it. -/
+def templateInside (shape bshape : List Nat) (p : List Int) : Bool :=
+  let c := centreOf bshape
+  inside shape (subPos p c) &&
+  inside shape (addPos (subPos p c) (bshape.map fun (d : Nat) => (d : Int) - 1))
+
+def hitmissSpecAt (A : Img Int) (bshape : List Nat) (bc : Array Int) (p : List Int) : Int :=
+  if templateInside A.shape bshape p &&
+     ((List.range (shapeSize bshape)).all fun i =>
+        bc.getD i 0 == 2 ||
+        A.getD (addPos p (subPos (unravelI bshape i) (centreOf bshape))) 0 == bc.getD i 0)
+  then 1 else 0
+
+/-! ### driver entry -/
+
+/-- the binary image number `idx` of a shape: pixel `j` (C order) is bit `j` of `idx` -/
+def bitImg (shape : List Nat) (idx : Nat) : Img Int :=
+  { shape := shape, data := ((List.range (shapeSize shape)).map fun j => if idx.testBit j then (1 : Int) else 0).toArray }
+
+def digits (xs : List Int) : String := String.join (xs.map fun x => if x == 0 then "0" else "1")
+
 def handle (a : Args) : String :=
+  let shape := a.nats "shape"
+  let A : Img Int := { shape := shape, data := (a.ints "data").toArray }
+  let bshape := a.nats "bshape"
+  let bc := (a.ints "bc").toArray
   match a.str "kind" with
+  | "loc" =>
+    let isMin := a.nat "min" == 1
+    let nb := neighbours bshape bc
+    let regular := starShapedB nb && symNbB shape.length nb
+    s!"model={showBools (locModel isMin A nb).toList} spec={showBools ((allPos shape).map (locSpecAt isMin A nb))} regular={if regular then 1 else 0}"
+  | "reg" =>
+    let isMin := a.nat "min" == 1
+    let nb := neighbours bshape bc
+    let regular := starShapedB nb && symNbB shape.length nb
+    s!"model={showBools (regModel isMin A nb).toList} spec={showBools (regSpec isMin A nb).toList} loc={showBools ((allPos shape).map (locSpecAt isMin A nb))} regular={if regular then 1 else 0}"
+  | "holes" =>
+    let nb := neighbours bshape bc
+    let regular := symNbB shape.length nb
+    s!"model={showBools (closeHoles A nb).toList} spec={showBools (closeHolesSpec A nb).toList} regular={if regular then 1 else 0}"
+  | "hitmiss" =>
+    let es := hmEntries bshape bc
+    s!"model={showInts ((allPos shape).map (hitmissAt A bshape es))} modelrev={showInts ((allPos shape).map (hitmissAt A bshape es.reverse))} spec={showInts ((allPos shape).map (hitmissSpecAt A bshape bc))}"
+  | "hmblock" =>
+    -- all binary images with index in [lo, hi) (pixel j of image `idx` = bit j of `idx`); digits, no separators
+    let es := hmEntries bshape bc
+    let idxs := (List.range (a.nat "hi" - a.nat "lo")).map (· + a.nat "lo")
+    let model := idxs.map fun idx => digits ((allPos shape).map fun p => hitmissAt (bitImg shape idx) bshape es p)
+    let spec := idxs.map fun idx => digits ((allPos shape).map fun p => hitmissSpecAt (bitImg shape idx) bshape bc p)
+    s!"model={String.join model} spec={String.join spec}"
+  | "holesblock" =>
+    let nb := neighbours bshape bc
+    let idxs := (List.range (a.nat "hi" - a.nat "lo")).map (· + a.nat "lo")
+    let model := idxs.map fun idx => digits ((closeHoles (bitImg shape idx) nb).toList.map fun b => if b then 1 else 0)
+    let spec := idxs.map fun idx => digits ((closeHolesSpec (bitImg shape idx) nb).toList.map fun b => if b then 1 else 0)
+    s!"model={String.join model} spec={String.join spec}"
   | k => s!"error=unknown-kind-{k}"
 
 end Mahotas.C14
